@@ -187,3 +187,16 @@ def _(c):
         c.scenario(expr, pre)
     c.ensures("near(self.magnitude.value * self.baseunits.magnitude, magnitude * f)", "factor-is-the-product-of-the-terms")
     c.no_raise()
+
+
+
+@contract(f"{Q}.__init__", ["C03", "C06"], name="Quantity.__init__[cancelling-units-next-to-a-dimensionless-one]")
+def _(c):
+    c.bound = "expressions of zero total dimension that contain a dimensionless table unit"
+    for expr, kept, f in [("%*m/km", "%", 1e-3), ("ppth*J/erg", "ppth", 1e7), ("[pi]*km2/m2", "[pi]", 1e6), ("m/km*%", "%", 1e-3), ("%", "%", 1.0), ("m/km", None, 1e-3)]:
+        def pre(b, expr=expr, kept=kept, f=f):
+            return dict(args=[b.obj(Q), b.real("x"), expr], env=dict(kept=kept, f=f))
+        c.scenario(expr, pre)
+    c.ensures("near(self.magnitude.value, magnitude * f)", "only-the-factors-of-the-dropped-units-are-folded-in")
+    c.ensures("self.baseunits.expression == kept", "the-dimensionless-unit-stays")
+    c.no_raise()
